@@ -12,10 +12,18 @@ import (
 	"hash/fnv"
 	"os"
 	"path/filepath"
+	"runtime"
 	"sort"
+	"strconv"
+	"strings"
 	"sync"
+	"sync/atomic"
 	"testing"
+	"time"
 )
+
+// beat counts collector calls: the real-time watchdog's sign of life.
+var beat atomic.Int64
 
 type Violation struct {
 	Key    string `json:"key"`
@@ -87,6 +95,7 @@ func Hash(parts ...any) uint64 {
 // sample (may be nil) renders the case for the evidence file; it is only
 // invoked for the few cases that are kept.
 func (c *Collector) Case(hash uint64, nontrivial bool, sample func() any) {
+	beat.Add(1)
 	c.mu.Lock()
 	defer c.mu.Unlock()
 	c.evals++
@@ -131,6 +140,7 @@ func (c *Collector) Case(hash uint64, nontrivial bool, sample func() any) {
 // Evals adds n evaluations that are not individually hashed (inner
 // exhaustive loops: cuts, alterations, revisions).
 func (c *Collector) Evals(n int64) {
+	beat.Add(1)
 	c.mu.Lock()
 	c.evals += n
 	c.mu.Unlock()
@@ -139,6 +149,7 @@ func (c *Collector) Evals(n int64) {
 // Enumerated records n evaluations of an enumeration whose cases are
 // pairwise distinct by construction, nt of which are non-trivial.
 func (c *Collector) Enumerated(n, nt int64) {
+	beat.Add(1)
 	c.mu.Lock()
 	c.evals += n
 	c.byConstr += nt
@@ -157,6 +168,7 @@ func (c *Collector) Sample(v any) {
 func (c *Collector) Label(l string) { c.LabelN(l, 1) }
 
 func (c *Collector) LabelN(l string, n int64) {
+	beat.Add(1)
 	c.mu.Lock()
 	c.labels[l] += n
 	c.mu.Unlock()
@@ -259,9 +271,57 @@ func (c *Collector) Flush() {
 
 // Main is used as TestMain body: runs tests, flushes stats.
 func Main(m *testing.M) {
+	startWatchdog()
 	code := m.Run()
 	global.Flush()
 	os.Exit(code)
+}
+
+// startWatchdog guards against hangs that the virtual clock of a synctest bubble cannot see: a
+// goroutine blocked on a sync.Mutex is not "durably blocked", so virtual time stops and no
+// bound expressed in it ever fires (e.g. a cancellation path waiting for a lock held by a
+// blocked writer). If the collectors see no call for VERIF_WATCHDOG_S seconds (default 600) of
+// real time, the stacks are recorded as a violation and the process ends. Cases take
+// milliseconds to seconds; native fuzz workers (no collector calls) are exempt.
+func startWatchdog() {
+	for _, a := range os.Args {
+		if strings.HasPrefix(a, "-test.fuzz") {
+			return
+		}
+	}
+	limit := 600
+	if v, err := strconv.Atoi(os.Getenv("VERIF_WATCHDOG_S")); err == nil && v > 0 {
+		limit = v
+	}
+	go func() {
+		last, since := beat.Load(), time.Now()
+		for {
+			time.Sleep(5 * time.Second)
+			if b := beat.Load(); b != last {
+				last, since = b, time.Now()
+				continue
+			}
+			if time.Since(since) < time.Duration(limit)*time.Second {
+				continue
+			}
+			buf := make([]byte, 1<<20)
+			buf = buf[:runtime.Stack(buf, true)]
+			var lib []string
+			for _, g := range strings.Split(string(buf), "\n\n") {
+				if strings.Contains(g, "github.com/ClickHouse/ch-go") {
+					lib = append(lib, g)
+				}
+			}
+			msg := fmt.Sprintf("no case finished for %d s of real time: the code under test hangs where the virtual clock cannot advance (goroutines blocked on a lock). Library goroutines:\n%s", limit, strings.Join(lib, "\n\n"))
+			if len(msg) > 6000 {
+				msg = msg[:6000] + "…"
+			}
+			global.Violate("hang-in-real-time", msg, buf)
+			global.Flush()
+			fmt.Fprintln(os.Stderr, "verif watchdog: "+msg)
+			os.Exit(1)
+		}
+	}()
 }
 
 type knownEntry struct {
